@@ -7,7 +7,7 @@ from vlib.hyp import hyp_search
 from vlib.workers import ALL, WorkerDied, WorkerSet
 
 SYNC = ["lock", "rlock", "stringio", "bytesio", "memoryview", "localcontext", "tempfile", "nullcontext", "suppress",
-        "closing", "exitstack", "condition", "semaphore", "redirect", "pym", "mock"]
+        "closing", "exitstack", "condition", "semaphore", "redirect", "pym", "mock", "oddexit"]
 ASYNC = ["apym", "apym_sx", "apym_sx", "aexitstack", "anull", "aclosing"]
 
 
